@@ -628,7 +628,8 @@ def resolve_impl(crate, call):
             ty = ty[4:]
     name = call.get('name')
     for imp in crate.impls:
-        if imp.get('trait') == tr and imp.get('self_ty', '').replace('&', '').strip() == ty:
+        import re as _re
+        if imp.get('trait') == tr and _re.sub(r'/#\d+', '', imp.get('self_ty', '')).replace('&', '').strip() == ty:
             for it in imp['items']:
                 if it['name'] == name:
                     return it['path']
